@@ -588,6 +588,7 @@ int exec_prog(prog_t *p, model_t *m, const char *path, const exec_opts_t *o) {
         for (size_t i = 0; i < p->n; ++i) {
             if (o->stop_after >= 0 && (int) i >= o->stop_after) break;
             exec_op_sync(wr, p, &p->ops[i]);
+            if (o->after_op) o->after_op(i, wr);
             if (m) model_apply(m, i);
         }
         if (o->no_close) return 0;
